@@ -108,6 +108,12 @@ class Report:
     def finish(self):
         self.cov['distinct_nontrivial'] = len(self._distinct)
         self.cov['known_findings_reproduced'] = self.known
+        try:
+            from harness.engine import tlc as _tlc
+            if _tlc.SELFTESTS:
+                self.cov['binding_selftest'] = _tlc.SELFTESTS
+        except Exception:
+            pass
         ev = {'property_id': self.pid, 'tier': self.tier, 'seed': self.seed, 'level': self.level,
               'coverage': self.cov, 'assumptions': self.assumptions, 'wall_s': round(time.time() - self.t0, 1),
               'violations': self.violations}
